@@ -136,6 +136,12 @@ def builder_work(args):
             nrm = tuple(F(0) if t == z else c for t, c in enumerate(nrm))
             if nrm == (0, 0, 0):
                 nrm = (F(1), F(0), F(0))
+        if R.random() < 0.3:
+            # within SMALL_ANGLE (0.1 rad) of a coordinate axis but not on it: the frame selection of get_circle_point_list
+            # has a branch per axis, and the image of such a normal under a symmetry takes another one
+            j = R.randrange(3)
+            small = [F(0), F(1, 2), F(-1, 2), F(1, 4), F(-1, 4), F(1), F(-1)]
+            nrm = tuple(F(R.choice([8, 16, -8, -16])) if t == j else R.choice(small) for t in range(3))
         c = tuple(F(R.randint(-8, 8), 2) for _ in range(3))
         r = R.choice([0.5, 1.0, 2.0, 3.5])
         nn = R.randint(3, 12)
